@@ -359,4 +359,170 @@ Proof.
   - rewrite is_eff_effb. destruct (GraphInvariant.effb p e) eqn:He; auto. apply dispose_spec; auto.
 Qed.
 
+(* ---------------------------------------------------------------- creation *)
+Definition init0 : state := mkState (map init_node p) [] [] 0 false false.
+
+Lemma getn_init0 i : getn init0 i = init_node (decl_of p i).
+Proof.
+  unfold getn, init0, decl_of. cbn [nodes].
+  change dnode with (init_node (DSig false 0%Z)). apply map_nth.
+Qed.
+
+Lemma init_node_empty d :
+  srcs (init_node d) = [] /\ subs (init_node d) = [] /\ rlog (init_node d) = [] /\
+  cache (init_node d) = None /\ st (init_node d) = Dirty /\ edirty (init_node d) = false /\
+  since (init_node d) = [].
+Proof. destruct d as [| | |k b h]; cbn; auto 10. Qed.
+
+Lemma init0_spec : Inv0 init0.
+Proof.
+  assert (H := fun i => init_node_empty (decl_of p i)).
+  split.
+  - split.
+    + unfold nlen, init0; cbn. apply map_length.
+    + intros i j. rewrite getn_init0. destruct (H i) as (->&_). intros [].
+    + intros j. rewrite getn_init0. destruct (H j) as (_&->&_). constructor.
+    + intros j k. rewrite getn_init0. destruct (H j) as (_&->&_). intros [].
+    + intros j k. rewrite getn_init0. destruct (H k) as (->&_). intros [].
+  - reflexivity.
+  - reflexivity.
+  - intros i _. destruct (H i) as (Hs&_&Hr&Hc&Hst&Hd&_).
+    unfold GraphInvariant.Rest, L1, GraphInvariant.Lcur, GraphInvariant.Lclean. rewrite getn_init0, Hs, Hr.
+    split; [reflexivity|]. split.
+    { unfold uncached_ok. destruct (decl_of p i); auto. }
+    split; [intros _ x v []|]. split; [intros _ x v []|].
+    unfold GraphInvariant.will_run, will_run_n. rewrite getn_init0.
+    destruct (decl_of p i) eqn:Hdi; cbn; try contradiction.
+    + intros [Hx _]. exfalso. apply Hx. reflexivity.
+    + intros (_&_&Hx). discriminate.
+  - intros e. unfold GraphInvariant.queue_ok, queue_ok_n. rewrite getn_init0.
+    destruct (decl_of p e); auto. cbn. intros _. split; discriminate.
+  - intros k [].
+Qed.
+
+(* the task of effect [i] is spawned: [f] sets the channel / waker fields, then the task is queued *)
+Lemma spawn_spec i k b h f s0 :
+  decl_of p i = DEff k b h ->
+  InvBut i [] 0 s0 -> i < nlen s0 ->
+  (forall n, core_same n (f n)) ->
+  (forall n, epoll (f n) = false /\ ereg (f n) = false /\ edone (f n) = false) ->
+  (ealive (f (getn s0 i)) = true ->
+     (edirty (f (getn s0 i)) = true -> eflag (f (getn s0 i)) = true) /\
+     (hasrun_n (DEff k b h) (f (getn s0 i)) = false -> edirty (f (getn s0 i)) = true)) ->
+  (needs_cur p (updn i f s0) i -> Lcur (updn i f s0) i) ->
+  (needs_clean p (updn i f s0) i -> Lclean (updn i f s0) i) ->
+  (will_run p (updn i f s0) i -> False) ->
+  Inv0 (enqueue i (updn i f s0)).
+Proof.
+  intros Hde IB Hi0 Hf Hq1 Hq2 N1 N2 N3.
+  set (s1 := updn i f s0) in *.
+  assert (E1 : getn s1 i = f (getn s0 i)) by (apply getn_updn_same; auto).
+  assert (IB1 : InvBut i [] 0 s1) by (apply InvBut_updn; auto).
+  assert (Hgq : forall x, getn (enqueue i s1) x = getn s1 x) by (intros x; apply getn_enqueue).
+  assert (Hcq : forall y, cur (enqueue i s1) y = cur s1 y) by (intros y; apply cur_view; rewrite Hgq; reflexivity).
+  assert (IBq : InvBut i [] 0 (enqueue i s1)).
+  { split.
+    - eapply WF_getn_eq; [| |apply IB1]; [unfold enqueue; destruct (existsb _ _); reflexivity|exact Hgq].
+    - unfold enqueue. destruct (existsb _ _); apply IB1.
+    - unfold enqueue. destruct (existsb _ _); apply IB1.
+    - intros x Hx Hxi. apply (Rest_ext p s1 (enqueue i s1) x).
+      + rewrite Hgq. apply nview_eq_refl.
+      + intros y v _. apply Hcq.
+      + intros y v _ _ Hc. rewrite Hgq; auto.
+      + apply (ib_rest _ _ _ _ _ IB1 x Hx Hxi).
+    - intros _. unfold L1. rewrite Hgq. apply (ib_l1 _ _ _ _ _ IB1). intros [].
+    - intros x Hx. pose proof (ib_queue _ _ _ _ _ IB1 x Hx) as Q.
+      unfold GraphInvariant.queue_ok, queue_ok_n in *. rewrite Hgq.
+      destruct (decl_of p x); auto. intros Ha. destruct (Q Ha) as (Q1 & Q2). split; auto.
+      intros Hp. destruct (Q2 Hp) as (A & B & C). split; auto. split; auto.
+      intros Hr. apply in_enqueue. auto.
+    - intros x []. }
+  apply (InvBut_close p i (enqueue i s1) IBq).
+  - split; [unfold L1; rewrite Hgq; apply (ib_l1 _ _ _ _ _ IB1); intros []|].
+    split; [unfold uncached_ok; rewrite Hde; exact Logic.I|].
+    split; [|split].
+    + intros Hn. apply (Lcur_ext p s1 (enqueue i s1) i); [rewrite Hgq; reflexivity|intros y v _; apply Hcq|].
+      apply N1. unfold GraphInvariant.needs_cur in *. rewrite Hgq in Hn. exact Hn.
+    + intros Hn. apply (Lclean_ext p s1 (enqueue i s1) i); [rewrite Hgq; reflexivity| |].
+      * intros y v _ _ Hy. rewrite Hgq; auto.
+      * apply N2. unfold GraphInvariant.needs_clean in *. rewrite Hgq in Hn. exact Hn.
+    + intros Hn. exfalso. apply N3. unfold GraphInvariant.will_run in *. rewrite Hgq in Hn. exact Hn.
+  - unfold GraphInvariant.queue_ok, queue_ok_n. rewrite Hde, Hgq, E1.
+    destruct (Hq1 (getn s0 i)) as (Hp & Hr & Hdn). intros Ha. destruct (Hq2 Ha) as (Q1 & Q2).
+    split; [intros Hd; left; auto|]. intros _. split; [exact Hdn|]. split; [intros _; apply in_enqueue_self|].
+    split; [intros _; exact Hr|exact Q2].
+Qed.
+
+Lemma create_spec i s : Inv0 s -> Inv0 (create p s i).
+Proof.
+  intros I. unfold create. destruct (decl_of p i) as [| | |k b h] eqn:Hde; auto.
+  assert (He : effb i = true) by (unfold GraphInvariant.effb; rewrite Hde; auto).
+  assert (Hel : i < length p) by (apply effb_lt; auto).
+  assert (Hei : i < nlen s) by (rewrite (wf_len p s (inv_wf _ _ _ _ I)); auto).
+  (* Effect::new, new_isomorphic, watch: dirty, notified once, never ran *)
+  assert (Hplain : k <> ERender ->
+    Inv0 (enqueue i (updn i (fun n => set_epoll (set_edone (set_ereg (set_eflag (set_edirty (set_efirst n true) true) true) false) false) false) s))).
+  { intros Hk. apply (spawn_spec i k b h _ s Hde (Inv_InvBut p i [] 0 s I) Hei).
+    - intros n. unfold core_same; nsimpl; intuition.
+    - intros n. nsimpl. auto.
+    - intros _. nsimpl. auto.
+    - unfold GraphInvariant.needs_cur, needs_cur_n. rewrite Hde, getn_updn_same by auto. nsimpl.
+      intros (_&Hx&_). destruct k; [discriminate|congruence|discriminate].
+    - unfold GraphInvariant.needs_clean, needs_clean_n. rewrite Hde, getn_updn_same by auto. nsimpl.
+      intros (_&Hx&_). destruct k; [discriminate|congruence|discriminate].
+    - unfold GraphInvariant.will_run, will_run_n. rewrite Hde, getn_updn_same by auto. nsimpl.
+      intros (_&Hx&_). destruct k; [discriminate|congruence|discriminate]. }
+  destruct k as [| |imm]; try (apply Hplain; discriminate).
+  (* RenderEffect: first run now, then spawned *)
+  set (f0 := fun n => set_epoll (set_edone (set_ereg (set_eflag (set_edirty (set_efirst n false) false) false) false) false) true).
+  set (sa := updn i f0 s).
+  assert (Ea : getn sa i = f0 (getn s i)) by (apply getn_updn_same; auto).
+  assert (IBa : InvBut i [] 0 sa).
+  { apply InvBut_updn; [apply Inv_InvBut; auto|]. intros n. unfold core_same, f0; nsimpl; intuition. }
+  assert (Qa : queue_ok sa i).
+  { unfold GraphInvariant.queue_ok, queue_ok_n. rewrite Hde, Ea. unfold f0. nsimpl. intros _. split; discriminate. }
+  destruct (pure i ERender b h Hde) as (Hokb & _).
+  destruct (eval p (read_any p) true (Some i, true) b (begin_run true i (clear_sources i sa))) as [s2 v] eqn:Ev.
+  destruct (eff_body_spec p wfp true i b sa s2 v IBa Qa He Hokb) as (I2 & P2 & Hc2 & Hcl2 & Hd2 & _); auto.
+  { rewrite Ea. unfold f0. nsimpl. reflexivity. }
+  set (s3 := emit (EvEnd i v) s2).
+  assert (I3 : Inv0 s3) by (apply Inv_emit; auto).
+  assert (Hei3 : i < nlen s3) by (rewrite (wf_len p s3 (inv_wf _ _ _ _ I3)); auto).
+  set (f3 := fun n => set_epoll (set_edone (set_ereg n false) false) false).
+  assert (E3 : getn (updn i f3 s3) i = f3 (getn s2 i)) by (rewrite getn_updn_same by auto; reflexivity).
+  assert (Hc3 : forall y, cur (updn i f3 s3) y = cur s2 y).
+  { intros y. apply cur_view; rewrite ?(updn_field sval), ?(updn_field cache); auto. }
+  apply (spawn_spec i ERender b h f3 s3 Hde (Inv_InvBut p i [] 0 s3 I3) Hei3).
+  - intros n. unfold core_same, f3; nsimpl; intuition.
+  - intros n. unfold f3. nsimpl. auto.
+  - intros _. unfold f3. nsimpl. change (getn s3 i) with (getn s2 i). rewrite Hd2.
+    split; [discriminate|]. cbn. discriminate.
+  - intros _. apply (Lcur_ext p s2 (updn i f3 s3) i); [rewrite E3; reflexivity|intros y w _; apply Hc3|exact Hc2].
+  - intros _. apply (Lclean_ext p s2 (updn i f3 s3) i); [rewrite E3; reflexivity| |exact Hcl2].
+    intros y w _ _ Hy. rewrite (updn_field st); auto.
+  - unfold GraphInvariant.will_run, will_run_n. rewrite Hde, E3. unfold f3. nsimpl.
+    intros (_&_&Hx). congruence.
+Qed.
+
+Lemma init_spec : Inv0 (init p).
+Proof.
+  unfold init. fold init0.
+  assert (H : forall l s, Inv0 s -> Inv0 (fold_left (create p) l s)).
+  { induction l as [|x t IH]; intros s I; cbn; auto. apply IH. apply create_spec; auto. }
+  apply H. apply init0_spec.
+Qed.
+
+(* ---------------------------------------------------------------- every reachable state *)
+Definition wf_ops (ops : list op) : Prop := Forall wf_op ops.
+
+Theorem reachable_inv : forall ops, wf_ops ops -> Inv0 (run_fixed p ops).
+Proof.
+  intros ops Hw. unfold run_fixed, run_ops.
+  assert (H : forall l s, Forall wf_op l -> Inv0 s ->
+              Inv0 (fold_left (step p (eff_check p) (notify_sig p)) l s)).
+  { induction l as [|o t IH]; intros s Hf I; cbn; auto.
+    inversion Hf; subst. apply IH; auto. apply step_spec; auto. }
+  apply H; auto. apply init_spec.
+Qed.
+
 End P.
